@@ -818,6 +818,28 @@ pub fn c05(r: &mut Rng, sz: &Sizes, out: &mut Vec<String>) {
     out.push(format!("inferdoc\t{}", crate::wire::hex(format!("\"{}\"", "a\u{e9}".repeat(big / 3)).as_bytes())));
     out.push(format!("inferdoc\t{}", crate::wire::hex(format!("[{}1]", "1,".repeat(big / 2)).as_bytes())));
     out.push(format!("inferdoc\t{}", crate::wire::hex(format!("\"{}", "\\u00e9".repeat(big / 6)).as_bytes())));
+    // width instead of depth: many members, many distinct keys across the elements of one array, long
+    // lexemes, many sources — on both paths where the value path applies
+    let wide = if thorough { 20_000 } else { 3_000 };
+    let members: Vec<String> = (0..wide).map(|i| format!("\"k{i}\":{}", i % 7)).collect();
+    let wide_obj = format!("{{{}}}", members.join(","));
+    let distinct: Vec<String> = (0..wide / 4).map(|i| format!("{{\"k{i}\":1,\"common\":\"x\"}}")).collect();
+    let many_keys = format!("[{}]", distinct.join(","));
+    let same_keys: Vec<String> = (0..wide).map(|i| format!("{{\"id\":{i},\"tag\":null}}")).collect();
+    let homogeneous = format!("[{}]", same_keys.join(","));
+    let long_number = format!("[{}.{}e+{}]", "9".repeat(wide), "1".repeat(wide), "7".repeat(3));
+    let long_key = format!("{{\"{}\":[]}}", "k\\u00e9".repeat(wide / 2));
+    let dup_keys = format!("{{{}}}", vec!["\"a\":1"; wide].join(","));
+    for t in [&wide_obj, &many_keys, &homogeneous, &long_number, &long_key, &dup_keys] {
+        out.push(format!("inferdoc\t{}", crate::wire::hex(t.as_bytes())));
+        out.push(format!("inferv\t{}", crate::wire::hex(t.as_bytes())));
+    }
+    let mut srcs = String::from("sourcesdoc");
+    for i in 0..(wide / 10) {
+        srcs.push('\t');
+        srcs.push_str(&crate::wire::hex(format!("{{\"k{}\":[{},\"s\"],\"n\":null}}", i % 50, i).as_bytes()));
+    }
+    out.push(srcs);
     // serde_json values up to its depth limit (127 nested arrays), value path
     for n in [1usize, 10, 64, 127] {
         let t = format!("{}1{}", "[".repeat(n), "]".repeat(n));
